@@ -328,6 +328,8 @@ def run(db: DB, rep: Report) -> None:
 
     # ---- M7: components are looked up in the configuration of the Einsum ------------
     rep.rule("M7", "component table is keyed by configuration; lookups select the Einsum's configuration", 2)
+    rep.rule("M8", "a traffic path lists its memories by depth, whatever the order of sibling levels", 1)
+    _check_traffic_path_order(db, rep)
     hinit = hw.methods["__init__"]
     cfg_loops = [n for n in walk_no_nested(hinit.node) if isinstance(n, ast.For) and
                  isinstance(n.target, ast.Name) and "architecture" in norm(n.iter) and
@@ -564,11 +566,43 @@ def run(db: DB, rep: Report) -> None:
               "the value assigned to metrics['time'] is not the accumulator summed over all blocks", decided=False)
 
 
+def _check_traffic_path_order(db: DB, rep: Report) -> None:
+    """M8: the memories of a traffic path are listed from the outermost to the innermost level
+    (the collector charges each buffer as filled from the one before it): the level worklist of
+    Hardware.get_traffic_path is consumed breadth-first, or the result is sorted by depth."""
+    gp = db.func("teaal.ir.hardware.Hardware.get_traffic_path")
+    loops = [n for n in walk_no_nested(gp.node) if isinstance(n, ast.While) and isinstance(n.test, ast.Name)]
+    if len(loops) != 1:
+        rep.undecided("M8", db.loc(gp.node), gp.short, "the level worklist loop of get_traffic_path was not found")
+        return
+    wl = loops[0].test.id
+    pops = [n for n in ast.walk(loops[0]) if isinstance(n, ast.Call) and isinstance(n.func, ast.Attribute) and
+            isinstance(n.func.value, ast.Name) and n.func.value.id == wl and n.func.attr in ("pop", "popleft")]
+    pushes_back = any(isinstance(n, ast.Call) and isinstance(n.func, ast.Attribute) and
+                      isinstance(n.func.value, ast.Name) and n.func.value.id == wl and
+                      n.func.attr in ("extend", "append") for n in ast.walk(loops[0]))
+    sorted_after = any(isinstance(n, ast.Call) and ((isinstance(n.func, ast.Attribute) and n.func.attr == "sort")
+                                                     or norm(n.func) == "sorted")
+                       for n in walk_no_nested(gp.node))
+    fifo = len(pops) == 1 and pushes_back and (
+        pops[0].func.attr == "popleft" or (pops[0].args and norm(pops[0].args[0]) == "0"))
+    lifo = len(pops) == 1 and pushes_back and pops[0].func.attr == "pop" and not pops[0].args
+    rep.check("M8", fifo or sorted_after, db.loc(pops[0]) if pops else db.loc(gp.node), gp.short,
+              "traffic-path:by-depth", "levels are visited breadth-first (the path is ordered by depth)",
+              "Hardware.get_traffic_path takes the next level with %s from a worklist it extends at the back: "
+              "the memories come out in depth-first visiting order, so for buffers in sibling subtrees at "
+              "different depths the path - which buffer is filled from which, and whose time enters the "
+              "roll-up - depends on the order of the subtrees in the YAML" %
+              (norm(pops[0]) if pops else "?"), decided=fifo or lifo or sorted_after)
+
+
 def mutants(db: DB):
     from sa.selftest import M, Mutant, Edit
     col = "teaal/trans/collector.py"
     comp = "teaal/ir/component.py"
     return [
+        M("revert F16 fix (depth-first traffic path)", "teaal/ir/hardware.py",
+          "            level, depth = levels.pop(0)", "            level, depth = levels.pop()", "M8"),
         M("single-component block uses the last Einsum's time", col,
           "                block_time = component_time[comp]", "                block_time = new_time", "M5"),
         M("delete add_component (compute)", col, "            self.fusion.add_component(einsum, fu.get_name())\n",
